@@ -687,14 +687,26 @@ func (g *G) appendOp(a, b Value, bt types.Type) Value {
 			return blobConcat(g, blobFromSlice(g, x), y)
 		}
 	case *Blob:
+		var out *Blob
 		switch y := b.(type) {
 		case Slice:
 			if len(y) == 0 {
 				return x
 			}
-			return blobConcat(g, x, blobFromSlice(g, y))
+			out = blobConcat(g, x, blobFromSlice(g, y))
 		case *Blob:
-			return blobConcat(g, x, y)
+			if y == nil || len(y.Segs) == 0 {
+				return x
+			}
+			out = blobConcat(g, x, y)
+		}
+		if out != nil {
+			if x != nil && x.reuse && x.bk != nil && len(x.Segs) == 0 {
+				// append(old[:0], data...): the old array is overwritten in place
+				x.bk.gen++
+				out = &Blob{Segs: out.Segs, bk: x.bk, bgen: x.bk.gen}
+			}
+			return out
 		}
 	}
 	panic(fmt.Sprintf("append %T %T", a, b))
